@@ -16,7 +16,10 @@ Seeds == {<<"Line", "line", 1>>, <<"Rectangle", "quad", 2>>, <<"Cube", "hexahedr
 Init == \E s \in Seeds : type = s[2] /\ dim = s[3] /\ order = 1 /\ prog = <<s[1]>>
 
 Step(op, t2, d2, o2) == /\ Len(prog) <= MaxDepth /\ type' = t2 /\ dim' = d2 /\ order' = o2 /\ prog' = Append(prog, op)
-Rigid == \/ (dim >= 2 /\ \E ax \in 0..(IF dim = 2 THEN 0 ELSE 2) : Step("rotate90:" \o ToString(IF dim = 2 THEN 2 ELSE ax), type, dim, order))
+\* order: 1 linear cells, 2 quadratic cell types, 3 point sets without a cell type (face / volume mid-points only, cell centroids):
+\* nothing but the typing invariants applies to these any further
+Rigid == order <= 2 /\
+         \/ (dim >= 2 /\ \E ax \in 0..(IF dim = 2 THEN 0 ELSE 2) : Step("rotate90:" \o ToString(IF dim = 2 THEN 2 ELSE ax), type, dim, order))
          \/ \E ax \in 0..(dim - 1) : Step("translate:" \o ToString(ax), type, dim, order)
          \* mirror is documented for the linear cell types only (it re-flips the cells)
          \/ (order = 1 /\ \E ax \in 0..(dim - 1) : Step("mirror:" \o ToString(ax), type, dim, order))
@@ -32,6 +35,9 @@ Midpoints == order = 1 /\ type \in {"quad", "hexahedron", "triangle", "tetra"}
              /\ \/ Step("midedges", CASE type = "quad" -> "quad8" [] type = "hexahedron" -> "hexahedron20"
                                       [] type = "triangle" -> "triangle6" [] type = "tetra" -> "tetra10", dim, 2)
                 \/ (type \in {"quad", "hexahedron"} /\ Step("convertfull", IF type = "quad" THEN "quad9" ELSE "hexahedron27", dim, 2))
+                \/ Step("midfaces", type, dim, 3)
+                \/ (type \in {"hexahedron", "tetra"} /\ Step("midvolumes", type, dim, 3))
+                \/ Step("centroids", type, dim, 3)
 Combine == order = 1 /\ (Step("concatmerge", type, dim, order) \/ Step("stack", type, dim, order) \/ Step("disconnect", type, dim, order))
 Next == Rigid \/ Flip \/ Triangulate \/ Expand \/ Revolve \/ Midpoints \/ Combine
 Spec == Init /\ [][Next]_vars
